@@ -4,6 +4,7 @@
 //! usage: slicer <repo-root> <spec-file> <out-dir>
 //!
 //! spec file (line oriented, `#` comments):
+//!   strip_derives <A> <B> ..            also drop these derives (default keeps Readable/Writable)
 //!   out <name>.rs                       start a new output file
 //!   file <repo-relative path>           source file for the following selectors
 //!   struct|enum|fn|const|static|type|trait|union <Name>
@@ -12,8 +13,9 @@
 //!   impl <Type> [only a,b|except a,b]   inherent impls of Type
 //!   impl <Trait> for <Type> [only..|except..]
 //!   stmts <fnpath> ;; <start-pat> ;; <end-pat|$> ;; <signature of emitted fn>
-//!   stmts1 ...                          same, body hosted in `for _ in 0..1 {..}` (source used `continue`)
+//!   stmts1 ...                          same; `continue` of the enclosing source loop becomes `return`
 //!   expr  <fnpath> ;; <pat> ;; <signature of emitted fn>
+//!   expr1 ...                           same; value wrapped in Some(..), `continue` of the enclosing loop becomes `return None`
 //!   sql   <fnpath> ;; <pat> ;; <CONST_NAME>      string literal starting with pat -> pub const
 //! <fnpath> is `name` or `Type::name` or `Trait@Type::name`. A pattern matches a statement or
 //! expression whose whitespace-free token text starts with the whitespace-free pattern; `#n`
@@ -72,6 +74,10 @@ const KEEP_ATTRS: &[&str] = &[
 ];
 
 struct AttrCleaner;
+thread_local! {
+    /// extra derives to drop, set by a `strip_derives A B ..` spec line (crates without speedy)
+    static STRIP_DERIVES: std::cell::RefCell<Vec<String>> = const { std::cell::RefCell::new(Vec::new()) };
+}
 fn clean_attrs(attrs: &mut Vec<Attribute>) {
     attrs.retain_mut(|a| {
         let name = a.path().segments.last().map(|s| s.ident.to_string()).unwrap_or_default();
@@ -94,7 +100,7 @@ fn clean_attrs(attrs: &mut Vec<Attribute>) {
                     .iter()
                     .filter(|p| {
                         let n = p.segments.last().unwrap().ident.to_string();
-                        KEEP_DERIVES.contains(&n.as_str())
+                        KEEP_DERIVES.contains(&n.as_str()) && !STRIP_DERIVES.with(|s| s.borrow().contains(&n))
                     })
                     .collect();
                 if kept.is_empty() {
@@ -228,6 +234,37 @@ fn split_nth(pat: &str) -> (String, usize) {
         }
     }
     (strip_ws(p), 1)
+}
+
+/// the ONE token rewrite besides attribute cleaning: in `stmts1` / `expr1` slices, `continue`
+/// expressions that target the loop ENCLOSING the slice (i.e. not nested in a loop inside it)
+/// are replaced by an early return, because the slice is emitted as a function body.
+struct ContinueRewriter {
+    depth: usize,
+    with: Expr,
+}
+impl VisitMut for ContinueRewriter {
+    fn visit_expr_mut(&mut self, e: &mut Expr) {
+        match e {
+            Expr::Continue(c) => {
+                if self.depth == 0 || c.label.is_some() {
+                    *e = self.with.clone();
+                }
+            }
+            Expr::ForLoop(_) | Expr::While(_) | Expr::Loop(_) => {
+                self.depth += 1;
+                visit_mut::visit_expr_mut(self, e);
+                self.depth -= 1;
+            }
+            Expr::Closure(_) | Expr::Async(_) => {
+                // a `continue` cannot cross a closure / async block boundary
+                let d = std::mem::replace(&mut self.depth, 1);
+                visit_mut::visit_expr_mut(self, e);
+                self.depth = d;
+            }
+            _ => visit_mut::visit_expr_mut(self, e),
+        }
+    }
 }
 
 struct StmtFinder<'a> {
@@ -485,6 +522,10 @@ fn main() {
                 out.name = rest.to_string();
                 continue;
             }
+            "strip_derives" => {
+                STRIP_DERIVES.with(|s| s.borrow_mut().extend(rest.split_whitespace().map(|x| x.to_string())));
+                continue;
+            }
             "file" => {
                 if !cache.contains_key(rest) {
                     let p = repo.join(rest);
@@ -583,8 +624,8 @@ fn main() {
             }
             "stmts" | "stmts1" => {
                 let parts: Vec<&str> = rest.split(";;").map(|s| s.trim()).collect();
-                if parts.len() != 4 {
-                    die(&format!("{ctx}: stmts needs 4 `;;`-separated parts"));
+                if parts.len() != 4 && !(kw == "stmts1" && parts.len() == 5) {
+                    die(&format!("{ctx}: stmts needs 4 `;;`-separated parts (stmts1: optional 5th = return expression)"));
                 }
                 let block = find_fn_block(src, parts[0]);
                 let (start, nth) = split_nth(parts[1]);
@@ -598,16 +639,33 @@ fn main() {
                 };
                 let sig: syn::Signature =
                     syn::parse_str(parts[3]).unwrap_or_else(|e| die(&format!("{ctx}: bad signature: {e}")));
-                // `stmts1`: the range comes from a loop body and may `continue`: host it in a
-                // single-iteration loop so that `continue` means "skip the rest"
+                // `stmts1`: the range comes from a loop body: a `continue` of the enclosing SOURCE loop
+                // (not of a loop inside the range) becomes `return`
                 let item: ItemFn = if kw == "stmts1" {
-                    syn::parse2(quote!(pub #sig { for _verif_once in 0..1 { #(#stmts)* } })).unwrap()
+                    let mut stmts: Vec<Stmt> = stmts.into_iter().cloned().collect();
+                    // optional 5th part: the value returned at the end of the range and at every
+                    // rewritten `continue` (lets by-value state such as counters flow back out)
+                    let ret: Option<Expr> = parts.get(4).map(|r| {
+                        syn::parse_str(r).unwrap_or_else(|e| die(&format!("{ctx}: bad return expression: {e}")))
+                    });
+                    let with: Expr = match &ret {
+                        Some(r) => syn::parse_quote!(return #r),
+                        None => syn::parse_quote!(return),
+                    };
+                    let mut rw = ContinueRewriter { depth: 0, with };
+                    for s in stmts.iter_mut() {
+                        rw.visit_stmt_mut(s);
+                    }
+                    match &ret {
+                        Some(r) => syn::parse2(quote!(pub #sig { #(#stmts)* #r })).unwrap(),
+                        None => syn::parse2(quote!(pub #sig { #(#stmts)* })).unwrap(),
+                    }
                 } else {
                     syn::parse2(quote!(pub #sig { #(#stmts)* })).unwrap()
                 };
                 out.items.push(Item::Fn(item));
             }
-            "expr" => {
+            "expr" | "expr1" => {
                 let parts: Vec<&str> = rest.split(";;").map(|s| s.trim()).collect();
                 if parts.len() != 3 {
                     die(&format!("{ctx}: expr needs 3 `;;`-separated parts"));
@@ -619,7 +677,16 @@ fn main() {
                 let e = f.result.unwrap_or_else(|| die(&format!("{ctx}: expression pattern not found")));
                 let sig: syn::Signature =
                     syn::parse_str(parts[2]).unwrap_or_else(|e| die(&format!("{ctx}: bad signature: {e}")));
-                let item: ItemFn = syn::parse2(quote!(pub #sig { #e })).unwrap();
+                // `expr1`: a `continue` of the enclosing SOURCE loop becomes `return None`; the value
+                // is wrapped in Some(..) (the emitted fn's signature returns Option<_>)
+                let item: ItemFn = if kw == "expr1" {
+                    let mut e = e.clone();
+                    let mut rw = ContinueRewriter { depth: 0, with: syn::parse_quote!(return None) };
+                    rw.visit_expr_mut(&mut e);
+                    syn::parse2(quote!(pub #sig { Some(#e) })).unwrap()
+                } else {
+                    syn::parse2(quote!(pub #sig { #e })).unwrap()
+                };
                 out.items.push(Item::Fn(item));
             }
             "sql" => {
